@@ -7,6 +7,17 @@ sys.path.insert(0, os.path.join(V, "rules"))
 import engine
 base = sys.argv[1]
 ALL = ["C%02d" % i for i in range(1, 19)]
+if len(sys.argv) > 3:
+    # one process per patch, 8 at a time
+    from concurrent.futures import ThreadPoolExecutor
+    def one(patch):
+        return subprocess.run([sys.executable, os.path.abspath(__file__), base, patch], stdout=subprocess.PIPE, stderr=subprocess.STDOUT, text=True).stdout
+    with ThreadPoolExecutor(8) as ex:
+        for out in ex.map(one, sys.argv[2:]):
+            sys.stdout.write(out)
+            sys.stdout.flush()
+    sys.exit(0)
+keep = os.environ.get("REFACTS_DIR")
 for patch in sys.argv[2:]:
     sc = os.path.join(engine.WORK, "scratch", "patch-%s" % uuid.uuid4().hex[:8])
     os.makedirs(sc, exist_ok=True)
@@ -25,6 +36,9 @@ for patch in sys.argv[2:]:
             obl, new, listed = engine.run_property(p, "quick", facts_path=facts, quiet=True, write_evidence=False)
             if new:
                 out[p] = [(o["key"], o["detail"][:160]) for o in new]
+        if keep:
+            os.makedirs(keep, exist_ok=True)
+            shutil.copyfile(facts, os.path.join(keep, os.path.splitext(os.path.basename(patch))[0] + ".json"))
         os.remove(facts)
     finally:
         shutil.rmtree(sc, ignore_errors=True)
